@@ -1,7 +1,7 @@
 (* C17 — Every reply is well-formed, and RESP and JSON outputs agree.
    This file holds only the property theorems, each closed by a lemma of Proofs/. *)
 From T38 Require Import Base.Bytes Base.Utf8 Model.Json Model.Templates
-  Model.WsFrame Model.RespOut Model.JsonScan Proofs.JsonScanProofs Proofs.JsonRespProofs Proofs.JsonProofs Proofs.JsonTmplProofs Proofs.JsonGenProofs Proofs.JsonWsProofs.
+  Model.JsonMode Proofs.JsonModeProofs Model.WsFrame Model.RespOut Model.JsonScan Proofs.JsonScanProofs Proofs.JsonRespProofs Proofs.JsonProofs Proofs.JsonTmplProofs Proofs.JsonGenProofs Proofs.JsonWsProofs.
 From T38 Require Gen.Templates.
 
 (* jsonString / appendJSONString (fast path and Go's json.Marshal escaping: control bytes, quote,
@@ -169,6 +169,37 @@ Theorem c17_drop_zero_distance_refuted :
   exists r, wf_res r /\ proj_json (sr_out r) (render_json_dropzero r) <> proj_resp (sr_out r) (render_resp r).
 Proof. exact dropzero_refuted. Qed.
 Print Assumptions c17_drop_zero_distance_refuted.
+
+(* Which mode a reply is in: netServe's loops (per packet, per message: resolve msg.OutputType from
+   client.outputType / the default, OUTPUT switches it, write it back) produce, for every split
+   of the command stream into packets, the mode of the latest OUTPUT switch at or before each
+   command (else the connection's initial mode). *)
+Theorem c17_mode_follows_output : forall dflt parsed packets c,
+  serve dflt parsed c packets = spec_modes (initial_mode dflt parsed c) (concat packets).
+Proof. exact serve_spec_proof. Qed.
+Print Assumptions c17_mode_follows_output.
+
+Theorem c17_mode_packet_independent : forall dflt parsed c ps qs,
+  concat ps = concat qs -> serve dflt parsed c ps = serve dflt parsed c qs.
+Proof. exact serve_packet_independent_proof. Qed.
+Print Assumptions c17_mode_packet_independent.
+
+(* resolving the mode once per packet (seeded change C17/4) is refuted: [OUTPUT json][cmd] in one packet *)
+Theorem c17_mode_hoisted_refuted :
+  serve_hoisted None OResp None [[POutput OJson; POther]; [POther]] <> serve None OResp None [[POutput OJson; POther]; [POther]].
+Proof. exact hoisted_refuted. Qed.
+Print Assumptions c17_mode_hoisted_refuted.
+
+(* Pub/sub: what a JSON-mode subscriber is sent for any published payload (the payload itself
+   when it is valid JSON, else jsonString of it) is always one valid JSON value; deciding by the
+   delimiters only (seeded change C17/5) is refuted by the payload {x}. *)
+Theorem c17_sub_message_valid : forall p, valid_json (sub_msg p) = true.
+Proof. exact sub_msg_valid_proof. Qed.
+Print Assumptions c17_sub_message_valid.
+
+Theorem c17_sub_message_delims_refuted : exists p, valid_json (sub_msg_delims p) = false.
+Proof. exact sub_msg_delims_refuted. Qed.
+Print Assumptions c17_sub_message_delims_refuted.
 
 (* non-vacuity: hole fills exist (a string needing every kind of escape, an integer, a boolean),
    and the regenerated list is not empty *)
